@@ -370,7 +370,9 @@ func (r *RegimeDef) InCategoryRates(cat cbc.Code) validation.Rule {
 // is inside the list of known codes.
 func (r *RegimeDef) InCategories() validation.Rule {
 	if r == nil {
-		return validation.Skip
+		// nothing to compare the code with; unlike validation.Skip this lets
+		// the rules of the code itself still apply
+		return validation.By(func(any) error { return nil })
 	}
 	cats := make([]cbc.Code, len(r.Categories))
 	for i, c := range r.Categories {
